@@ -203,6 +203,11 @@ def Qty.pow (env : ι → UnitInfo V) (q : Qty ι V) (p : Frac) : Except String 
 /-- the number the quantity stands for when every unit is replaced by its factor -/
 def Qty.base (env : ι → UnitInfo V) (q : Qty ι V) : V := q.mag.value * q.units.magnitude env
 
+/-- the uncertain number the quantity stands for in base dimensions: value and absolute error
+    both multiplied by the (exact, positive) factor of its units -/
+def Qty.baseMag (env : ι → UnitInfo V) (q : Qty ι V) : Mag V :=
+  ⟨q.mag.value * q.units.magnitude env, q.mag.error.map (fun e => e * q.units.magnitude env)⟩
+
 /-- exponent of unit `u` in a unit map, as a rational (0 if absent) -/
 def BU.expOf (b : BU ι) (u : ι) : Rat :=
   match b.find? (fun p => p.1 = u) with
